@@ -214,8 +214,9 @@ func VH_C08_crash(rt int) {
 		cfs.occ = 1 + verif.Choice(3)
 	}
 	installed := false
+	var f *FSM
 	crashed := vhUntilCrash(func() {
-		f := vhSnapFSM(cfs, vhNodeDir, rt)
+		f = vhSnapFSM(cfs, vhNodeDir, rt)
 		idx, err := f.Open(nil)
 		verif.Assert(err == nil && idx == 3, "reopen before the install")
 		err = f.RecoverFromSnapshot(bytes.NewReader(stream), make(chan struct{}))
@@ -227,7 +228,7 @@ func VH_C08_crash(rt int) {
 	} else {
 		verif.Cover("crash-after")
 	}
-	mem.ResetToSyncedState()
+	vhKill(mem, cfs, f)
 
 	f2 := vhSnapFSM(&vhCrashFS{FS: mem}, vhNodeDir, rt)
 	idx, err := f2.Open(nil)
